@@ -511,6 +511,8 @@ def acc_C13(w):
             w.wit.inc("cancel_occurrences")
             if e[2].cancel_time != e[2].order_time:
                 w.wit.inc("cancel_later_than_order")
+            if e[2].volume == 0:
+                w.wit.inc("cancel_of_filled_order")
         elif k == "round":
             for l in e[2]:
                 occ.append(("execution", False, l.time, e[1]))
